@@ -262,12 +262,16 @@ def around(ver):
 EXTRA = {'OpenSSH': ['10.0', '10.1', '12.3', '100.0', '10.0.0.1', '9.9.0.10'], 'Dropbear SSH': ['2024.85', '2100.1', '0.100', '99.0.0.1', '2025.88.0.1'], 'libssh': ['0.10.0', '0.10.5', '0.11.1', '1.0.0', '10.0.0', '0.10.6.1']}
 
 
+# release numbers of one component (two or more digits: the banner grammar wants that): newer than everything with a smaller first component
+SINGLE = {'OpenSSH': ['10', '11', '101', '2020'], 'Dropbear SSH': ['2021', '2100'], 'libssh': ['11', '100']}
+
+
 def cli_tasks():
     out = []
     fa = first_appeared()
     for prod, d in fa.items():
         for ver, (cat, name) in sorted(d.items()):
-            vs = set(around(ver)) | set(EXTRA[prod])
+            vs = set(around(ver)) | set(EXTRA[prod]) | set(SINGLE[prod])
             for v in sorted(vs):
                 out.append((prod, ver, cat, name, v))
             for v in around(ver):
